@@ -121,6 +121,12 @@ class SmtpRelayWorld(object):
                     for e in envs:
                         self.attempt(relay, e).join()
                 gevent.spawn(seq)
+            elif cfg.get('stagger'):
+                def staggered():
+                    for e in envs:
+                        self.attempt(relay, e)
+                        gevent.sleep(cfg['stagger'])       # the next attempt arrives while the previous one is being worked on
+                gevent.spawn(staggered)
             else:
                 for e in envs:
                     self.attempt(relay, e)
